@@ -354,7 +354,32 @@ def r16_2(chk, sdf):
 
 
 # ------------------------------------------------------------------------------------------------
+def _fill_lengths(chk, sdf):
+    """to_sdf_string pads missing columns of a block with [fill] * N and then writes range(M) lines of that block: N and M are the same count
+    (the atom count for the atom block, the bond count for the bond block -- one copied from the other block indexes past the padding)."""
+    fn = sdf.funcs.get("to_sdf_string")
+    if fn is None:
+        return
+    pads = {}
+    for st in ast.walk(fn):
+        if isinstance(st, ast.Assign) and len(st.targets) == 1 and isinstance(st.targets[0], ast.Name) and isinstance(st.value, ast.DictComp):
+            for c in ast.walk(st.value.value):
+                if isinstance(c, ast.Call) and isinstance(c.func, ast.Attribute) and c.func.attr == "get" and len(c.args) == 2 \
+                        and isinstance(c.args[1], ast.BinOp) and isinstance(c.args[1].op, ast.Mult):
+                    n = c.args[1].right if isinstance(c.args[1].left, ast.List) else c.args[1].left
+                    pads[st.targets[0].id] = ast.unparse(n)
+    n_ = 0
+    for st in ast.walk(fn):
+        if isinstance(st, ast.For) and isinstance(st.iter, ast.Call) and isinstance(st.iter.func, ast.Name) and st.iter.func.id == "range" and len(st.iter.args) == 1:
+            used = {x.id for x in ast.walk(st) if isinstance(x, ast.Name) and x.id in pads}
+            for f in sorted(used):
+                n_ += 1
+                chk.ob("R16.3", SDF, "to_sdf_string", f"the padding of `{f}` has as many entries as lines are written from it", pads[f] == ast.unparse(st.iter.args[0]),
+                       node=st, fingerprint=f"fill-length:{f}", expected=f"[fill] * {ast.unparse(st.iter.args[0])}", found=f"[fill] * {pads[f]}")
+
+
 def r16_3(chk, sdf, mol):
+    _fill_lengths(chk, sdf)
     # a chunk of blank lines only (after the last $$$$) must be skipped before lines[3] is read
     pc = sdf.ev("parse_sdf_contents")
     use = [e for e in pc.events if e.kind == "call" and call_name(e.value.as_atom() or ()) == "parse_counts_line"]
